@@ -477,6 +477,9 @@ func cloneVal(v any) any {
 		}
 		return &c
 	case []string:
+		if x == nil {
+			return []string(nil)
+		}
 		return append([]string{}, x...)
 	default:
 		rv := reflect.ValueOf(v)
